@@ -273,7 +273,7 @@ theorem step_startTag (script : ElemScript) (sels : List SelReg) (docs : List Do
                     doctype := inv.doctype, end_ := inv.end_, reg := inv.reg,
                     removed := by simpa using hrm true er,
                     vm := ⟨hne, items, rfl,
-                      hrel.snoc_skip _ _ ⟨rfl, rfl, rfl, by simp [ElementDescriptor.new, er]⟩
+                      hrel.snoc_skip _ _ ⟨rfl, rfl, rfl, by simp [er]⟩
                         rfl es⟩,
                     flags := by simp [Dispatcher.getTokenCaptureFlags, hEz],
                     wf := hwf', triv := fun h => absurd h hne }
@@ -288,7 +288,7 @@ theorem step_startTag (script : ElemScript) (sels : List SelReg) (docs : List Do
                     removed := by simpa using hrm true er,
                     vm := ⟨hne, _, rfl,
                       hrel.snoc_take _ (mkOpen script sels name matched ord)
-                        ⟨rfl, rfl, rfl, by simp [ElementDescriptor.new, er]⟩ (by simp)⟩,
+                        ⟨rfl, rfl, rfl, by simp [er]⟩ (by simp)⟩,
                     flags := by
                       simp [Dispatcher.getTokenCaptureFlags, hEz, hasActive_zero items hitz, hx0],
                     wf := hwf', triv := fun h => absurd h hne }
